@@ -57,8 +57,10 @@ func init() {
 		mutation{"zones-label-aligned-zone-itself-passes", "tun/server/acme_rpc.go", "	if strings.Contains(hostname, s.Acme) || strings.Contains(hostname, s.Apex) {", "	if strings.HasSuffix(hostname, \".\"+s.Acme) || strings.HasSuffix(hostname, \".\"+s.Apex) {", "checkacme"},
 		mutation{"apex-check-dropped", "tun/server/acme_rpc.go", "	if strings.Contains(hostname, s.Acme) || strings.Contains(hostname, s.Apex) {", "	if strings.Contains(hostname, s.Acme) {", "checkacme"},
 	)
+	mutExtra["algo-table-form"] = [2]string{"func (s *Server) Sign(", "var keylessHashTable = map[protocol.KeylessSignRequest_HashAlgorithm]struct {\n	hash crypto.Hash\n	size int\n}{\n	protocol.KeylessSignRequest_SHA256: {hash: crypto.SHA256, size: 32},\n	protocol.KeylessSignRequest_SHA384: {hash: crypto.SHA384, size: 48},\n	protocol.KeylessSignRequest_SHA512: {hash: crypto.SHA512, size: 64},\n}\n\nfunc (s *Server) Sign("}
 	addSelfTests("C30",
 		mutation{"unbound-hostname-served", "tun/server/keyless_rpc.go", "	if !found {\n		return nil, twirp.PermissionDenied.Error(\"cannot use provided hostname for keyless tls\")\n	}\n", "	_ = found\n", "keyless-gate"},
+		mutation{"algo-table-form", "tun/server/keyless_rpc.go", "	var opts crypto.SignerOpts\n	switch req.GetAlgo() {\n	case protocol.KeylessSignRequest_SHA256:\n		opts = crypto.SHA256\n	case protocol.KeylessSignRequest_SHA384:\n		opts = crypto.SHA384\n	case protocol.KeylessSignRequest_SHA512:\n		opts = crypto.SHA512\n	default:\n		return nil, twirp.InvalidArgumentError(\"algo\", \"unsupported hash algorithm\")\n	}", "	entry, known := keylessHashTable[req.GetAlgo()]\n	if !known {\n		return nil, twirp.InvalidArgumentError(\"algo\", \"unsupported hash algorithm\")\n	}\n	var opts crypto.SignerOpts = entry.hash", "!sign-gate"},
 		mutation{"digest-length-unchecked", "tun/server/keyless_rpc.go", "	if len(req.GetDigest()) != opts.HashFunc().Size() {\n		return nil, twirp.InvalidArgumentError(\"digest\", \"invalid digest length\")\n	}\n", "", "sign-gate"},
 		mutation{"default-algo-sha256", "tun/server/keyless_rpc.go", "	default:\n		return nil, twirp.InvalidArgumentError(\"algo\", \"unsupported hash algorithm\")", "	default:\n		opts = crypto.SHA256", "sign-gate"},
 		mutation{"ttl-ignores-expiry", "tun/server/keyless_cache.go", "	if remaining < keylessPositiveTTL {\n		return remaining\n	}\n", "", "ttl"},
@@ -942,14 +944,79 @@ func runC30(c *Ctx) {
 		return ok && se.Sel.Name == "Sign" && strings.Contains(typeStr(sg, se.X), "crypto.Signer")
 	})
 	c.Floor("Sign sites", len(signs), 1)
+	// table form of the algorithm map: entry, ok := TABLE[req.GetAlgo()] with TABLE a
+	// package-level map literal keyed by the algorithm constants
+	var tableEntry *ast.CompositeLit
+	tableProv := ""
+	var tableIdx *ast.IndexExpr
+	ast.Inspect(sg.Body, func(n ast.Node) bool {
+		ix, ok := n.(*ast.IndexExpr)
+		if !ok || sg.Prov(ix.Index) != "param#1.GetAlgo()" {
+			return true
+		}
+		if gv, ok := sg.ObjOf(ix.X).(*types.Var); ok && gv.Pkg() != nil && gv.Parent() == gv.Pkg().Scope() {
+			if lit := globalInit(c, gv); lit != nil {
+				tableEntry, tableIdx = lit, ix
+				tableProv = sg.Prov(ix)
+			}
+		}
+		return true
+	})
+	_ = tableProv
+	// fromTable: e is a field of the entry looked up in the table for the request's algorithm
+	var fromTable func(e ast.Expr) bool
+	fromTable = func(e ast.Expr) bool {
+		se, ok := ast.Unparen(e).(*ast.SelectorExpr)
+		if !ok {
+			// a local holding such a field
+			if v := sg.varOf(e); v != nil {
+				defs := sg.defsOf(v)
+				if len(defs) == 0 {
+					return false
+				}
+				for _, d := range defs {
+					if d.rhs == nil || d.multi || !fromTable(d.rhs) {
+						return false
+					}
+				}
+				return true
+			}
+			return false
+		}
+		v := sg.varOf(se.X)
+		if v == nil {
+			return ast.Unparen(se.X) == ast.Expr(tableIdx)
+		}
+		defs := sg.defsOf(v)
+		if len(defs) == 0 {
+			return false
+		}
+		for _, d := range defs {
+			if d.rhs == nil || ast.Unparen(d.rhs) != ast.Expr(tableIdx) || d.idx != 0 {
+				return false
+			}
+		}
+		return true
+	}
 	for _, s := range signs {
 		requireAt(c, "sign-gate", "Sign#signer.Sign", sg, s, "the private key signs only after getCertificate succeeded and the digest has the length of the selected hash",
 			reqCallOK("tun/server.Server.getCertificate"),
-			factReq{"len(digest) == opts.HashFunc().Size()", cmpFalse(func(g *Fn, be *ast.BinaryExpr) bool {
+			factReq{"len(digest) == size of the selected hash", cmpFalse(func(g *Fn, be *ast.BinaryExpr) bool {
 				s := types_ExprString(be)
-				return be.Op == token.NEQ && strings.Contains(s, "GetDigest") && strings.Contains(s, "HashFunc.Size")
+				if be.Op != token.NEQ || !strings.Contains(s, "GetDigest") {
+					return false
+				}
+				if strings.Contains(s, "HashFunc.Size") || strings.Contains(s, ".Size()") {
+					return true
+				}
+				// table form: the size field of the entry looked up for the request's algorithm
+				return tableEntry != nil && (fromTable(be.Y) || fromTable(be.X))
 			})})
-		c.Ob("sign-gate", "Sign#signs-request-digest-with-opts", s.Pos(), strings.HasPrefix(sg.Prov(s.Args[1]), "param#1.") && sg.varOf(s.Args[2]) != nil, "the request digest is signed with the selected options")
+		okOpts := sg.varOf(s.Args[2]) != nil
+		if tableEntry != nil {
+			okOpts = fromTable(s.Args[2])
+		}
+		c.Ob("sign-gate", "Sign#signs-request-digest-with-opts", s.Pos(), strings.HasPrefix(sg.Prov(s.Args[1]), "param#1.") && okOpts, "the request digest is signed with the selected options")
 		se := s.Fun.(*ast.SelectorExpr)
 		c.Ob("sign-gate", "Sign#key-of-gated-certificate", s.Pos(), strings.Contains(sg.Prov(se.X), "recv.getCertificate()#0.PrivateKey"), "the signing key is the gated certificate's key; found "+sg.Prov(se.X))
 	}
@@ -976,6 +1043,61 @@ func runC30(c *Ctx) {
 		}
 		return true
 	})
+	if tableEntry != nil {
+		// each key maps to its own hash, with that hash's digest size
+		stdSize := map[string]string{"SHA256": "32", "SHA384": "48", "SHA512": "64"}
+		keys := map[string]bool{}
+		for _, el := range tableEntry.Elts {
+			kv, ok := el.(*ast.KeyValueExpr)
+			if !ok {
+				continue
+			}
+			name := constName(sg, kv.Key)
+			keys[name] = true
+			hash, size := "", ""
+			if cl, ok := kv.Value.(*ast.CompositeLit); ok {
+				for _, fe := range cl.Elts {
+					v := fe
+					if fkv, ok := fe.(*ast.KeyValueExpr); ok {
+						v = fkv.Value
+					}
+					if strings.HasSuffix(typeStr(sg, v), "crypto.Hash") {
+						hash = constName(sg, v)
+					} else if cv, ok := sg.ConstVal(v); ok {
+						size = cv
+					}
+				}
+			}
+			if want, ok := wantAlgo[name]; ok {
+				seenAlgo++
+				c.Ob("sign-gate", "Sign#algo:"+name, kv.Pos(), hash == want, "request algorithm "+name+" selects crypto."+want+"; found crypto."+hash)
+				if size != "" {
+					c.Ob("sign-gate", "Sign#digest-size:"+name, kv.Pos(), size == stdSize[want], fmt.Sprintf("the digest length demanded for %s is the size of crypto.%s (%s bytes); the table says %s", name, want, stdSize[want], size))
+				}
+			} else {
+				c.Ob("sign-gate", "Sign#algo:"+name+"->"+hash, kv.Pos(), false, "the table admits an algorithm outside the three enumerated ones")
+			}
+		}
+		// unsupported -> refused: the comma-ok of the lookup is tested and its false side returns an error
+		okMiss := false
+		ast.Inspect(sg.Body, func(n ast.Node) bool {
+			as, ok := n.(*ast.AssignStmt)
+			if !ok || len(as.Lhs) != 2 || len(as.Rhs) != 1 || ast.Unparen(as.Rhs[0]) != ast.Expr(tableIdx) {
+				return true
+			}
+			okVar := sg.varOf(as.Lhs[1])
+			for _, r := range sg.Returns() {
+				if len(r.Results) == 2 && isTwirpErr(sg, r.Results[1]) && sg.FactsAt(r).Cmp(func(e, tag ast.Expr, truth bool, fa *Fact) bool {
+					return tag == nil && !truth && okVar != nil && sg.varOf(e) == okVar
+				}) {
+					okMiss = true
+				}
+			}
+			return true
+		})
+		c.Ob("sign-gate", "Sign#unsupported-algorithm-rejected", sg.Decl.Pos(), okMiss && len(keys) == 3, "an algorithm outside the table is refused with an error, never defaulted")
+		c.Floor("Sign algorithm cases", seenAlgo, 3)
+	}
 	// an unsupported algorithm is refused: at signer.Sign the algorithm is one of the three
 	for _, s2 := range signs {
 		_, neg := sg.FactsAt(s2).EqConsts(sg, isAlgo)
@@ -997,8 +1119,10 @@ func runC30(c *Ctx) {
 			okDef = true
 		}
 	}
-	c.Ob("sign-gate", "Sign#unsupported-algorithm-rejected", sg.Decl.Pos(), okDef, "an algorithm outside the table is refused with an error, never defaulted")
-	c.Floor("Sign algorithm cases", seenAlgo, 3)
+	if tableEntry == nil {
+		c.Ob("sign-gate", "Sign#unsupported-algorithm-rejected", sg.Decl.Pos(), okDef, "an algorithm outside the table is refused with an error, never defaulted")
+		c.Floor("Sign algorithm cases", seenAlgo, 3)
+	}
 
 	// computeKeylessTTL
 	tt := c.Func("tun/server", "", "computeKeylessTTL")
